@@ -1,5 +1,6 @@
 (* C17 (2/3) -- proofs about the outer layer of estimate_voices (Model/C17_Voices.v).
-   Everything is proved for an arbitrary [oracle] (the VoSA search). *)
+   Everything is proved for an arbitrary [oracle] (the VoSA search) and an arbitrary choice
+   [rep] of the note that represents a chord. *)
 From PV Require Import Lib.Base Model.C17_Voices Proofs.C17_lib.
 #[local] Open Scope Z_scope.
 
@@ -127,10 +128,11 @@ Proof.
 Qed.
 
 Section Outer.
+  Variable rep : list (Z * vnote) -> list Z -> Z.
   Variable oracle : list (Z * vnote) -> list (Z * Z).
 
   Lemma scatter_length : forall mono notes vs,
-    scatter oracle mono notes = Some vs -> List.length vs = List.length notes.
+    scatter rep oracle mono notes = Some vs -> List.length vs = List.length notes.
   Proof.
     intros mono notes vs. unfold scatter.
     destruct (all_some (map _ (oracle _))) as [writes|]; [|discriminate].
@@ -139,12 +141,12 @@ Section Outer.
 
   (* one voice per note; the voices used are exactly 1..K *)
   Lemma voices_wellformed_lemma : forall mono notes out,
-    estimate_voices oracle mono notes = Some out ->
+    estimate_voices rep oracle mono notes = Some out ->
     List.length out = List.length notes /\
     exists K, 0 <= K /\ (notes <> [] -> 1 <= K) /\ forall t, In t out <-> 1 <= t <= K.
   Proof.
     intros mono notes out. unfold estimate_voices.
-    destruct (scatter oracle mono notes) as [vs|] eqn:S; [|discriminate].
+    destruct (scatter rep oracle mono notes) as [vs|] eqn:S; [|discriminate].
     intros H. inversion H; subst out; clear H. pose proof (scatter_length _ _ _ S) as L. split.
     - unfold reverse_voices, rename_voices. rewrite !map_length. exact L.
     - exists (nvoices vs). split; [unfold nvoices; lia|]. split; [|apply voices_set].
@@ -153,7 +155,7 @@ Section Outer.
   Qed.
 
   Lemma voices_positive_lemma : forall mono notes out v,
-    estimate_voices oracle mono notes = Some out -> In v out -> 1 <= v.
+    estimate_voices rep oracle mono notes = Some out -> In v out -> 1 <= v.
   Proof.
     intros mono notes out v H Hv. destruct (voices_wellformed_lemma _ _ _ H) as [_ [K [_ [_ HK]]]].
     apply HK in Hv. lia.
@@ -332,17 +334,18 @@ Proof.
 Qed.
 
 Section Chords.
+  Variable rep : list (Z * vnote) -> list Z -> Z.
   Variable oracle : list (Z * vnote) -> list (Z * Z).
 
   Lemma scatter_chords : forall notes vs i j ni nj,
-    scatter oracle false notes = Some vs ->
+    scatter rep oracle false notes = Some vs ->
     nth_error notes i = Some ni -> nth_error notes j = Some nj ->
     ckey_of ni = ckey_of nj ->
     nth_error vs i = nth_error vs j.
   Proof.
     intros notes vs i j ni nj S Hi Hj Ek. unfold scatter in S.
     set (ins := indexed_from 0 notes) in *.
-    set (eqv := equivs_of false ins) in *.
+    set (eqv := equivs_with (rep ins) false ins) in *.
     destruct (all_some (map _ (oracle _))) as [writes|] eqn:W; [|discriminate].
     pose proof (all_some_map _ _ S) as M.
     assert (Ni : nth_error ins i = Some (Z.of_nat i, ni)) by (apply (indexed_from_nth notes 0 i ni Hi)).
@@ -353,7 +356,7 @@ Section Chords.
       pose proof (all_some_In _ _ _ W Hw) as Hw'. apply in_map_iff in Hw'. destruct Hw' as [[id v'] [E _]].
       cbn [fst snd] in E. destruct (zlookup id eqv) as [mem'|] eqn:Z1; [|discriminate].
       inversion E; subst mem' v'. apply zlookup_In in Z1.
-      unfold eqv, equivs_of in Z1. apply in_map_iff in Z1. destruct Z1 as [[k ids] [E1 Hg]].
+      unfold eqv, equivs_with in Z1. apply in_map_iff in Z1. destruct Z1 as [[k ids] [E1 Hg]].
       cbn [fst snd] in E1. inversion E1; subst mem.
       apply mem_z_ext. split; intros H.
       - eapply (same_key_same_groups ins (Z.of_nat i) (Z.of_nat j) ni nj); eauto using nth_error_In.
@@ -368,13 +371,13 @@ Section Chords.
   Qed.
 
   Lemma chord_mode_same_voice_lemma : forall notes out i j ni nj,
-    estimate_voices oracle false notes = Some out ->
+    estimate_voices rep oracle false notes = Some out ->
     nth_error notes i = Some ni -> nth_error notes j = Some nj ->
     vn_onset ni = vn_onset nj -> vn_dur ni = vn_dur nj ->
     nth_error out i = nth_error out j.
   Proof.
     intros notes out i j ni nj H Hi Hj Eo Ed. unfold estimate_voices in H.
-    destruct (scatter oracle false notes) as [vs|] eqn:S; [|discriminate].
+    destruct (scatter rep oracle false notes) as [vs|] eqn:S; [|discriminate].
     inversion H; subst out; clear H.
     assert (Ek : ckey_of ni = ckey_of nj) by (unfold ckey_of; congruence).
     pose proof (scatter_chords _ _ _ _ _ _ S Hi Hj Ek) as E.
@@ -384,12 +387,12 @@ Section Chords.
 End Chords.
 
 (* monophonic mode: idx_equivs is the identity map *)
-Lemma mono_mode_identity_map_lemma : forall ins, equivs_of true ins = map (fun x => (fst x, [fst x])) ins.
+Lemma mono_mode_identity_map_lemma : forall rp ins, equivs_with rp true ins = map (fun x => (fst x, [fst x])) ins.
 Proof. reflexivity. Qed.
 
 (* the hypotheses are satisfiable, the model evaluates: VoSA's answer for the three
    representatives 0, 1, 3 (note 2 is in the chord of note 1; note 3 has zero duration) *)
 Example voices_example :
-  estimate_voices (fun _ => [(0, 0); (3, 1); (1, 1)]) false
+  estimate_voices rep_of (fun _ => [(0, 0); (3, 1); (1, 1)]) false
     [(60, 0, 4); (72, 0, 2); (67, 0, 2); (74, 2, 0)] = Some [2; 1; 1; 1].
 Proof. vm_compute. reflexivity. Qed.
